@@ -18,7 +18,7 @@ import GV.Lemmas.C06b
                              the VALUE decoder rejects every such cell (`C06_bad_column_spec`): ENUM as type 254 with
                              metadata 247 * 256 + w, or as type 247 with metadata % 256 = w, with w ∉ {1, 2}
                              ("unexpected enum size"; w = 0 and 3 … 255 all behave alike), and type 6 (w = 0)
-    CellBad c v              v is a value of such a column written as exactly w bytes (`.raw b` with b.length = w, …)
+    CellBad c v              v is a value of such a column written as exactly w bytes (`.raw b t` with b.length = w, …)
     ImageLoose / imageHasBad an image whose cells are `W.CellOK` or `CellBad` / that holds a non-NULL `CellBad` cell
     BadValueChange cfg c     `RowsOK cfg c` with `ImageLoose` for `ImageOK`, plus `bad`: some row has a non-NULL value
                              of a rejected column type in an image THE EVENT CARRIES — before image for UPDATE / DELETE,
@@ -196,20 +196,20 @@ def cUpdB : W.RowsChange :=
   { kind := .update, table := tEn, ts := 77, flags := 1, extra := [7], presentBefore := [true, true],
     presentAfter := [true, true],
     rows := [([some (.int 4 1), none], [some (.int 4 2), none]),
-             ([some (.int 4 (-5)), some (.raw [9, 8, 7])], [some (.int 4 6), none])],
+             ([some (.int 4 (-5)), some (.raw [9, 8, 7] [9, 8, 7])], [some (.int 4 6), none])],
     announce := true, tmOptional := [] }
 /-- … the AFTER image only -/
 def cUpdA : W.RowsChange :=
   { cUpdB with rows := [([some (.int 4 1), none], [some (.int 4 2), none]),
-                         ([some (.int 4 (-5)), none], [some (.int 4 6), some (.raw [9, 8, 7])])] }
+                         ([some (.int 4 (-5)), none], [some (.int 4 6), some (.raw [9, 8, 7] [9, 8, 7])])] }
 /-- … both images -/
 def cUpdAB : W.RowsChange :=
   { cUpdB with rows := [([some (.int 4 1), none], [some (.int 4 2), none]),
-                         ([some (.int 4 (-5)), some (.enum 3 70000)], [some (.int 4 6), some (.raw [9, 8, 7])])] }
+                         ([some (.int 4 (-5)), some (.enum 3 70000)], [some (.int 4 6), some (.raw [9, 8, 7] [9, 8, 7])])] }
 def cWr : W.RowsChange :=
-  { cUpdB with kind := .write, rows := [([], [some (.int 4 2), none]), ([], [some (.int 4 6), some (.raw [9, 8, 7])])] }
+  { cUpdB with kind := .write, rows := [([], [some (.int 4 2), none]), ([], [some (.int 4 6), some (.raw [9, 8, 7] [9, 8, 7])])] }
 def cDel : W.RowsChange :=
-  { cUpdB with kind := .delete, rows := [([some (.int 4 1), none], []), ([some (.int 4 (-5)), some (.raw [9, 8, 7])], [])] }
+  { cUpdB with kind := .delete, rows := [([some (.int 4 1), none], []), ([some (.int 4 (-5)), some (.raw [9, 8, 7] [9, 8, 7])], [])] }
 
 /-- the mapper knows tables [116], [117], [118], [120] -/
 def exEnvB : Env :=
@@ -367,13 +367,13 @@ example : stepEvent exEnvB exStB
   [(254, 247 * 256 + 0, 0), (254, 247 * 256 + 4, 4), (254, 247 * 256 + 8, 8), (254, 247 * 256 + 255, 255), (247, 3, 3), (6, 0, 0)].all
     fun (typ, md, w) =>
       let t : W.TableDef := { tEn with cols := [⟨3, 0, true⟩, ⟨typ, md, true⟩] }
-      let c : W.RowsChange := { cUpdB with table := t, rows := [([some (.int 4 1), some (.raw (List.replicate w 9))], [some (.int 4 2), none])] }
+      let c : W.RowsChange := { cUpdB with table := t, rows := [([some (.int 4 1), some (.raw (List.replicate w 9) (List.replicate w 9))], [some (.int 4 2), none])] }
       runB cfg (uTx c) == wantB cfg && runB cfg (.autoRows c) == wantB cfg
 -- `bad` only counts images the event carries: the same bytes listed in the BEFORE image of a WRITE, or in the AFTER
 -- image of a DELETE, are never written, and the change is delivered (no error)
 #guard allCfgs.all fun cfg =>
-  [{ cWr with rows := [([some (.int 4 1), some (.raw [9, 8, 7])], [some (.int 4 2), none])] },
-   { cDel with rows := [([some (.int 4 1), none], [some (.int 4 2), some (.raw [9, 8, 7])])] }].all fun c =>
+  [{ cWr with rows := [([some (.int 4 1), some (.raw [9, 8, 7] [9, 8, 7])], [some (.int 4 2), none])] },
+   { cDel with rows := [([some (.int 4 1), none], [some (.int 4 2), some (.raw [9, 8, 7] [9, 8, 7])])] }].all fun c =>
     (runB cfg (.autoRows c)).err == false && (runB cfg (.autoRows c)).calls.length == 5
 
 /-! ### non-vacuity for Goal C -/
